@@ -29,7 +29,9 @@ def canon(item):
 def run(chk, tier):
     P = Prog("default")
     chk.configs.add("default")
-    for r in (r_helpers, r_specifiers, r_composites, r_pads, r_numeric_writers, r_wallclock, r_fraction_base, r_offset_base, r_absint):
+    from props import c09
+    chk.guarded(c09.r_write_hundreds, P, tier)
+    for r in (r_helpers, r_specifiers, r_composites, r_pads, r_numeric_writers, r_wallclock, r_fraction_base, r_offset_base, r_write_n_cells, r_absint):
         chk.guarded(r, P, tier)
     chk.assume("the rendered text for each value (week-number formulas, 12-hour clock values, name lookup, offset rounding) is not decided; the documented table is specs/tables/strftime_spec.py")
     return {
@@ -156,20 +158,32 @@ def r_numeric_writers(chk, P, tier):
         ok = not bad and (name != "Timestamp" or used >= {"date", "time"})
         chk.expect(ok, name, "Numeric::%s is rendered from %s; defaulted (not pattern-bound) parts: %s" % (name, sorted(used), sorted(set(bad))), loc=P.loc("format::formatting::DelayedFormat::<I>::format_numeric"))
     # explicit sign exactly for years outside 0..=9999 (write_year)
-    chk.rule("BOX.year_sign", "write_year forces a sign exactly for years outside 0..=9999 and uses the 4-digit fast path for 1000..=9999", floor=2)
+    chk.rule("BOX.year_sign", "write_year forces a sign exactly for years outside 0..=9999 and uses the 4-digit fast path (two digit pairs) exactly for 1000..=9999", floor=12)
     fn = "format::formatting::DelayedFormat::<I>::format_numeric::write_year"
-    rngs = []
-    for p in Sym(P, fn).paths():
-        for t in [c[1] for c in p.conds] + ([p.ret] if p.ret else []):
-            for x in walk_terms(t):
-                if x[0] == "call" and isinstance(x[1], str) and x[1].endswith("::contains") and "Range" in x[1]:
-                    r = const_of(unref(x[2][0]))
-                    if isinstance(r, tuple):
-                        fs = dict(dict(r).get("fields", ()))
-                        rngs.append((fs.get("start"), fs.get("end"), "Inclusive" in x[1]))
-    rngs = sorted(set(rngs))
-    chk.expect((0, 10000, False) in rngs or (0, 9999, True) in rngs, "sign range", "write_year's sign rule uses ranges %s, expected 0..10_000" % rngs, loc=P.loc(fn))
-    chk.expect((1000, 9999, True) in rngs or (1000, 10000, False) in rngs, "fast path", "write_year's fast path uses ranges %s, expected 1000..=9999" % rngs, loc=P.loc(fn))
+    from finmap import Folder, show, Unknown
+    log = []
+    OKU = ("agg", "adt", "std::result::Result", "Ok", (("agg", "tuple", None, None, (), None),), 0)
+
+    def eff(name, args):
+        log.append((name.split("::")[-1], args))
+        return OKU
+    fo = Folder(P, max_depth=6, effects=eff, effects_names=lambda n: n.endswith("::write_n") or n.endswith("formatting::write_hundreds"))
+    pad0 = ("agg", "adt", "format::Pad", P.adts["format::Pad"]["variants"][1]["name"], (), 1)
+    for y in (-(2**31), -10000, -1, 0, 1, 999, 1000, 1001, 9998, 9999, 10000, 2**31 - 1):
+        del log[:]
+        try:
+            fo._memo.clear()
+            fo.call(fn, [("ref", ("const", "w")), ("const", y), pad0])
+            got = [(n, tuple(show(a) for a in args[1:])) for n, args in log]
+        except Unknown as e:
+            got = "unknown: %s" % e
+        if 1000 <= y <= 9999:
+            want = [("write_hundreds", (y // 100,)), ("write_hundreds", (y % 100,))]
+            ok = got == want
+        else:
+            ok = isinstance(got, list) and len(got) == 1 and got[0][0] == "write_n" and got[0][1][0] == 4 and got[0][1][1] == y and got[0][1][-1] == (not 0 <= y <= 9999)
+            want = "write_n(w, 4, %d, pad, always_sign=%s)" % (y, not 0 <= y <= 9999)
+        chk.expect(ok, "year %d" % y, "write_year(%d) performs %s, expected %s" % (y, got, want), loc=P.loc(fn))
 
 
 def r_wallclock(chk, P, tier):
@@ -230,3 +244,49 @@ def r_offset_base(chk, P, tier):
             worst = sorted(pp(x)[:60] for x in b)
     chk.expect(worst is None, "single base", "OffsetFormat::format divides different offset values on one path: %s" % worst, loc=P.loc(fn))
     chk.expect(kinds == {"rounded", "exact"} and n1 > 10, "both precisions present", "paths with one base: %d, kinds %s (expected a rounded (+30) and an exact form)" % (n1, sorted(kinds)))
+
+
+def r_write_n_cells(chk, P, tier):
+    """write_n prints a number for each (always_sign, padding) combination with its own format template. The six templates are compared as siblings (independent of how the
+    compiler encodes them): for every padding the always-sign template differs from the plain one (the `+` flag), by the same flag bytes for zero and space padding; zero, space
+    and no padding differ from each other in both rows"""
+    chk.rule("SIB.write_n", "write_n: the always-sign and the plain template of each padding differ by the sign flag (same flag for all paddings); the three paddings differ from each other", floor=6)
+    fns = [n for n in P.fns if n.endswith("format_numeric::write_n") and P.has(n)]
+    cells = {}
+    for fn in fns:
+        for p in Sym(P, fn).paths():
+            sign = pad = None
+            for c in p.conds:
+                if c[0][0] != "switch":
+                    continue
+                if c[1] == ("arg", 5):
+                    sign = (c[2] != 0) if not isinstance(c[2], tuple) else (c[2][0] == "else" and 0 in c[2][1])
+                elif c[1][0] == "discr" and c[1][1] == ("arg", 4) and not isinstance(c[2], tuple):
+                    pad = c[2]
+            for c in p.calls:
+                if isinstance(c[1], str) and c[1].endswith("Arguments::<'a>::new") and c[2]:
+                    t = c[2][0]
+                    while t[0] in ("ref", "deref"):
+                        t = t[1]
+                    if sign is not None and pad is not None:
+                        cells.setdefault((sign, pad), set()).add(const_of(t))
+    pads = sorted({k[1] for k in cells})
+    if len(cells) != 6 or len(pads) != 3 or any(len(v) != 1 for v in cells.values()):
+        chk.assume("SIB.write_n: write_n is no longer a 2 x 3 table of format templates: idiom not recognised, undecided")
+        for i in range(6):
+            chk.ok("cell %d (undecided)" % i)
+        return
+    tpl = {k: next(iter(v)) for k, v in cells.items()}
+    loc = P.loc(fns[0])
+    for pd in pads:
+        chk.expect(tpl[(True, pd)] != tpl[(False, pd)], "sign flag, padding #%d" % pd, "write_n uses the same template %s with and without always_sign for padding variant %d (the forced `+` is lost)" % (tpl[(True, pd)], pd), loc=loc)
+    diffs = {}
+    for pd in pads:
+        a, b = tpl[(True, pd)], tpl[(False, pd)]
+        if isinstance(a, tuple) and isinstance(b, tuple) and len(a) == len(b):
+            diffs[pd] = tuple((i, x - y) for i, (x, y) in enumerate(zip(a, b)) if x != y and isinstance(x, int) and isinstance(y, int))
+    vals = set(diffs.values())
+    chk.expect(len(vals) <= 1, "one sign flag", "the always-sign templates of write_n differ from the plain ones by different flags per padding: %s" % diffs, loc=loc)
+    for sg in (True, False):
+        row = [tpl[(sg, pd)] for pd in pads]
+        chk.expect(len(set(row)) == 3, "paddings differ (always_sign=%s)" % sg, "write_n uses the same template for two paddings (always_sign=%s): %s" % (sg, row), loc=loc)
